@@ -18,8 +18,8 @@ CLAIMS = {
     text="Protocol clauses only: each port callback runs with d.port set to its port, d.obj is restored after every callback, every path from a callback in the location branches to the next iteration or return cuts d.loc back to old_end and appended bytes are NUL-terminated before the callback; d.matches is incremented exactly for leaf ports and for default-handler calls; the three hand-written copies of the type-tag matcher (one used by the linear scan, one by the hashed lookup) are the same function; every constructor that fills the table ends in refreshMagic(); the hash computed at dispatch time is the formula the table was built with, and remap[t] is read only with t in range. Whether the perfect hash and the linear scan accept the same addresses for every table is not decided.",
     note="Trusted: clang AST/-O0 IR, sa/irlib.py, sa/rules/flow.py. Unwind edges are not followed.",
     ref="DESIGN.md 2 C04"),
- "C05": dict(cat="other", tech="finite-domain evaluation of rtosc_match_number's predicate, def-use of its operands, call-site shape (result honoured), restore-before-retry rule on the goto structure of rtosc_match_options",
-    text="Narrow claim: `#N` admits exactly indices < N (predicate table over 0..5 x 0..5, operands traced to atoi of message / pattern digits, both digit runs required and consumed, every caller fails the match on false, rtosc_match_partial uses the same strict bound) and every retry of a `{a,b}` alternative restores the message cursor to its entry value first. Literal text, trailing '/', and type alternatives over all (pattern,address) pairs are not decided by this family.",
+ "C05": dict(cat="other", tech="finite-domain evaluation of rtosc_match_number's predicate, def-use of its operands, call-site shape (result honoured), restore-before-retry rule on the goto structure of rtosc_match_options; rtosc_match_path (with rtosc_match_options / rtosc_match_number in place, goto followed) evaluated on about 1400 (pattern, address) probe pairs against a transcription of the statement",
+    text="Narrow claim: `#N` admits exactly indices < N (predicate table over 0..5 x 0..5, operands traced to atoi of message / pattern digits, both digit runs required and consumed, every caller fails the match on false, rtosc_match_partial uses the same strict bound) and every retry of a `{a,b}` alternative restores the message cursor to its entry value first. On 66 patterns of the documented form x one-place variations of a matching address the path matcher matches exactly when the statement says so and returns the start of the type alternatives. Larger patterns, ambiguous alternatives and the product with type strings are not decided.",
     note="Trusted: clang AST, sa/fdeval.py.",
     ref="DESIGN.md 2 C05"),
  "C09": dict(cat="other", tech="instruction-level path search on the IR of walk_ports / walk_ports_recurse0 / bundle_foreach (truncation at old_end, NUL termination before consumers), finite-domain evaluation of the #N expansion loops, key agreement with rEnabledBy / rSelf",
@@ -86,9 +86,23 @@ NA = {
 DEFAULT_NA = "not yet implemented in this revision of the framework (see DESIGN.md section 2 for the planned rule)"
 
 checks = []
+# clauses added in later rounds (kept apart so that the original claim texts stay readable)
+ALSO = {
+ "C01": " Also decided: the argument iterator, evaluated on probe type strings with nested / adjacent / empty arrays, yields every tag but '[' and ']' in order.",
+ "C06": " Also decided: no length or offset is computed from two different loads of the index the other thread advances (label flow on the AST; comparisons exempt).",
+ "C09": " Also decided for walk_ports: bytes appended by hand are NUL-terminated before the walker or the recursion reads the buffer.",
+ "C10": " Also decided: the printer leaves the second value of a range out exactly when the step is +-1 in the run's own type and no differing value of that type precedes (rtosc_print_range evaluated on symbolic runs), and it has a run's count confirmed by the readers' function for both spellings.",
+ "C11": " Also decided: a local the checker is handed as an output it may leave unwritten is defined before, or the call's result is used, or it is not read (IR); the checker's choice of a range's left neighbour sets arrays apart as the scanner's does.",
+ "C12": " Also decided: the buffer of the composed key `default <value>` holds any printed 32-bit integer.",
+ "C13": " Also decided: in-degree increments and decrements range over the same collection.",
+ "C14": " The clamp tables include negative incoming values in the clamp variable's own type, restricted to what the storage type represents.",
+ "C16": " Also decided: the range-aware iterator, evaluated on 11 slot layouts, stands on each value once per repetition and leaves a finished range behind the whole repeated value.",
+ "C19": " Also decided: every numeric branch of setSlotSub applies exp exactly when the scale is logarithmic (the bounds are kept as logarithms for every type).",
+}
 for i in ids:
     if i in CLAIMS:
-        c = CLAIMS[i]
+        c = dict(CLAIMS[i])
+        c["text"] = c["text"] + ALSO.get(i, "")
         checks.append({
             "property_id": i,
             "quick_cmd": "./check %s --tier quick" % i,
